@@ -119,7 +119,34 @@ func berVariants(x *mon.Ctx) {
 	for i := 0; i < n; i++ {
 		kind := []string{"signed", "signed", "enveloped", "psk"}[i%4]
 		form := []string{"all-indefinite", "random-forms", "long-form-lengths", "constructed-octet-string"}[(i/4)%4]
-		c := x.Begin("BER variant #%d of an honest %s message: %s", i, kind, form)
+		r := mon.NewRand(x.Seed, "c16.ber.variants/spec", i)
+		var ss signedSpec
+		var es envSpec
+		var spec string
+		if kind == "signed" {
+			ss = genSigned(r, r.Intn(1000), sweepLens, false)
+			if ss.api == "cfca" {
+				ss.api = "pkcs7"
+			}
+			if form == "constructed-octet-string" {
+				ss.detached, ss.digestOnly = false, false
+				if ss.n == 0 {
+					ss.n = 20
+				}
+			}
+			spec = ss.String()
+		} else {
+			api := []string{aEncrypt, aEncryptSM, aEncryptCFCA, aEnvelopeCFCA}[r.Intn(4)]
+			if kind == "psk" {
+				api = []string{aPSK, aPSKSM}[r.Intn(2)]
+			}
+			es = genEnv(r, api, r.Intn(len(contentCiphers)), sweepLens[r.Intn(len(sweepLens))])
+			for j := range es.rcpt {
+				es.rcpt[j] = kSM2
+			}
+			spec = es.String()
+		}
+		c := x.Begin("BER variant #%d (%s) of an honest %s message: %s", i, form, kind, spec)
 		if c == nil {
 			continue
 		}
@@ -129,16 +156,7 @@ func berVariants(x *mon.Ctx) {
 		var check func(msg []byte) error // nil error = parses and yields the same content
 		switch kind {
 		case "signed":
-			s := genSigned(c.R, c.R.Intn(1000), sweepLens, false)
-			if s.api == "cfca" {
-				s.api = "pkcs7"
-			}
-			if form == "constructed-octet-string" {
-				s.detached, s.digestOnly = false, false
-				if s.n == 0 {
-					s.n = 20
-				}
-			}
+			s := ss
 			b, err := buildSigned(c, w, s)
 			if err != nil {
 				if !c.Failed() {
@@ -152,7 +170,6 @@ func berVariants(x *mon.Ctx) {
 				continue
 			}
 			der = b.der
-			c.Detail("spec", s.String())
 			check = func(msg []byte) error {
 				p, err := b.verify(msg)
 				if err != nil {
@@ -164,16 +181,7 @@ func berVariants(x *mon.Ctx) {
 				return nil
 			}
 		default:
-			api := aEncryptSM
-			if kind == "psk" {
-				api = []string{aPSK, aPSKSM}[c.R.Intn(2)]
-			} else {
-				api = []string{aEncrypt, aEncryptSM, aEncryptCFCA, aEnvelopeCFCA}[c.R.Intn(4)]
-			}
-			s := genEnv(c.R, api, c.R.Intn(len(contentCiphers)), sweepLens[c.R.Intn(len(sweepLens))])
-			for j := range s.rcpt {
-				s.rcpt[j] = kSM2
-			}
+			s := es
 			b, err := buildEnv(c, w, s)
 			if err != nil {
 				if !c.Failed() {
@@ -183,7 +191,6 @@ func berVariants(x *mon.Ctx) {
 				continue
 			}
 			der = b.der
-			c.Detail("spec", s.String())
 			check = func(msg []byte) error {
 				var pt []byte
 				var err error
@@ -257,6 +264,18 @@ func berVariants(x *mon.Ctx) {
 		if c.Call("Parse(BER variant)", func() { cerr = check(ber) }) && cerr != nil {
 			c.Fail("reject", "the %s BER variant of an honest message no longer parses to the same content / verifies: %v", form, cerr)
 		}
+		if form == "constructed-octet-string" && kind == "signed" {
+			// observation only: signed content split into two segments (what streaming encoders emit for long
+			// content). The parser documents the one-segment form; whether it copes with more is counted, not judged.
+			if two := constructedContentN(c.R, der, root, kind, 2); two != nil {
+				var e2 error
+				if mon.Try(func() { e2 = check(two) }) == nil && e2 == nil {
+					c.Event("ber/observed_two_segment_signed_content_accepted", 1)
+				} else {
+					c.Event("ber/observed_two_segment_signed_content_refused", 1)
+				}
+			}
+		}
 		c.End()
 	}
 }
@@ -266,6 +285,11 @@ func berVariants(x *mon.Ctx) {
 // (the form the library's parser documents); EnvelopedData/EncryptedData: encryptedContent
 // [0] IMPLICIT OCTET STRING -> constructed [0] holding 1..4 OCTET STRING segments.
 func constructedContent(r *mon.Rand, der []byte, root *tlv, kind string) []byte {
+	return constructedContentN(r, der, root, kind, 1)
+}
+
+// signedSegs: number of segments for the signed-data form (enveloped forms draw 1..4 themselves)
+func constructedContentN(r *mon.Rand, der []byte, root *tlv, kind string, signedSegs int) []byte {
 	var target *tlv
 	inner := root.child(1, 0)
 	if inner == nil {
@@ -294,8 +318,17 @@ func constructedContent(r *mon.Rand, der []byte, root *tlv, kind string) []byte 
 	content := der[target.off+target.hdr : target.end]
 	var repl []byte
 	if kind == "signed" {
-		seg := append(appendLen([]byte{0x04}, len(content)), content...)
-		repl = append([]byte{0x24, 0x80}, seg...)
+		repl = []byte{0x24, 0x80}
+		rest := content
+		for i := 0; i < signedSegs; i++ {
+			k := len(rest)
+			if i < signedSegs-1 {
+				k = len(rest) / 2
+			}
+			repl = append(repl, appendLen([]byte{0x04}, k)...)
+			repl = append(repl, rest[:k]...)
+			rest = rest[k:]
+		}
 		repl = append(repl, 0, 0)
 	} else {
 		nseg := r.Range(1, 4)
